@@ -49,7 +49,7 @@ Proof. exact prop_of_model. Qed.
 Print Assumptions C08_prop_of_model.
 
 Theorem C08_prop_of_run : forall v i,
-  decode_C08 v = Some i -> 0 <= retry_max (i_cfg i) -> 0 <= cross_retry (i_cfg i) ->
+  decode_C08 v = Some i -> i_topo i = 0 -> 0 <= retry_max (i_cfg i) -> 0 <= cross_retry (i_cfg i) ->
   run_C08 v <> VErr 1 -> prop_C08 v (run_C08 v) = true.
 Proof. exact prop_of_run. Qed.
 Print Assumptions C08_prop_of_run.
@@ -69,6 +69,14 @@ Proof. exact ex_budget. Qed.
 Example C08_select : random_select_exclude [(100, false); (0, false); (0, true); (0, false)] 0 5 = Some 3%nat.
 Proof. exact ex_select. Qed.
 Example C08_model_obs_example :
-  model_obs (mkI (mkCfg 1 1 1) (mkReq true true) [1; 2; 0]) [0; 1; 4; 2]
+  model_obs (mkI (mkCfg 1 1 1) (mkReq true true) [1; 2; 0] 0) [0; 1; 4; 2]
   = Some (VL [vLZ [0; 1; 4]; vLZ [0; 4]; VZ 500]).
 Proof. reflexivity. Qed.
+(* topologies where the in-cluster selection always fails: Balance raises RetryTime to RetryMax (EvAttempt true) resp. returns
+   ErrBkCrossRetryBalance (EvCrossBalance): at most CrossRetry + 1 attempts resp. none *)
+Example C08_jump_example :
+  model_obs_x (mkI (mkCfg 2 1 1) (mkReq true true) [12; 0] 1) [6; 5; 5] = Some (VL [vLZ [6; 5]; vLZ [5]; VZ 500])
+  /\ model_obs_x (mkI (mkCfg 2 3 1) (mkReq true true) [0] 2) [5] = Some (VL [vLZ []; vLZ []; VZ 500])
+  /\ attempts (mkCfg 2 1 1) (mkReq true true) [EvAttempt true ConnectErr; EvAttempt true ReadHdrErr; EvAttempt true Ok]
+     = [(2, ConnectErr); (3, ReadHdrErr)].
+Proof. repeat split; reflexivity. Qed.
